@@ -1,4 +1,5 @@
 import PEval.Lemmas.MatchingResults
+import PEval.Model.MatchDispatch
 import PEval.Properties.KernelMatchable
 import PEval.Properties.KernelBetter
 import PEval.Properties.KernelCell
@@ -205,5 +206,113 @@ example : getObjectResults { exCfg with fpValidation := true } exScene = .ok [(0
 example : getObjectResults { exCfg with mode := .iou2d } exScene = .error "AssertionError" := by decide +kernel
 example : getObjectResults { exCfg with thresholds := some [3] } exScene = .error "IndexError" := by
   decide +kernel
+
+/-! ## every kind of object, label family and uuid setting: the dispatch of `get_object_results`
+
+`MatchDispatch.getObjectResultsX` is the entry point for all object kinds (3-D boxes, 2-D objects with a
+ROI, ROI-less 2-D objects) x label families (Autoware / traffic light) x uuids (set or `None`) x
+`uuid_matching_first`.  Objects that carry geometry are served by the geometric matcher whatever their
+label family, uuids and `uuid_matching_first` are, so every statement above holds for all of them. -/
+section dispatch
+open PEval.MatchDispatch
+
+/-- The geometric matcher is selected exactly when the first objects carry geometry (3-D, or 2-D with
+both ROIs present); the label family plays no role. -/
+theorem dispatch_geometric_iff (is2d : Bool) (e0 g0 : ObjX) :
+    dispatch is2d e0 g0 = .geometric ↔ (is2d = false ∨ (e0.roiNone = false ∧ g0.roiNone = false)) := by
+  unfold dispatch
+  cases is2d <;> cases e0.roiNone <;> cases g0.roiNone <;> cases e0.tl <;> simp
+
+/-- ROI-less 2-D objects go to the identity-based matchers (C11): traffic-light labels to the label/uuid
+matcher, all others to the uuid matcher. -/
+theorem dispatch_roiless (e0 g0 : ObjX) (h : e0.roiNone = true ∨ g0.roiNone = true) :
+    dispatch true e0 g0 = if e0.tl then .tlr else .byId := by
+  unfold dispatch
+  rcases h with h | h <;> cases h' : e0.tl <;> simp [h]
+
+/-- For objects with geometry the entry point IS the geometric matcher, for every label family, every
+uuid assignment (set, shared, `None`) and both `uuid_matching_first` settings. -/
+theorem withGeometry_eq_geometric (uf : Bool) (c : Cfg) (sx : SceneX) (h : hasGeometry sx) :
+    getObjectResultsX uf c sx = getObjectResults c (toScene sx) := by
+  unfold getObjectResultsX
+  cases hE : sx.ests with
+  | nil => simp [getObjectResults, toScene, hE]
+  | cons e0 es =>
+    cases hG : sx.gts with
+    | nil => simp [getObjectResults, toScene, hE, hG]
+    | cons g0 gs =>
+      have hd : dispatch sx.is2d e0 g0 = .geometric := by
+        rw [dispatch_geometric_iff]
+        rcases h with h | ⟨h1, h2⟩
+        · exact Or.inl h
+        · exact Or.inr ⟨h1 e0 (by simp [hE]), h2 g0 (by simp [hG])⟩
+      simp only [hd]
+
+/-- Two calls that differ only in label family flags, uuids, `uuid_matching_first` (same member values,
+frames and scores) return the same results when the objects carry geometry. -/
+theorem geometric_independent_of_family_uuid {uf uf' : Bool} {c : Cfg} {sx sx' : SceneX}
+    (h : hasGeometry sx) (h' : hasGeometry sx') (heq : toScene sx = toScene sx') :
+    getObjectResultsX uf c sx = getObjectResultsX uf' c sx' := by
+  rw [withGeometry_eq_geometric uf c sx h, withGeometry_eq_geometric uf' c sx' h', heq]
+
+theorem toScene_ests_length (sx : SceneX) : (toScene sx).ests.length = sx.ests.length := by
+  simp [toScene]
+
+theorem toScene_gts_get {sx : SceneX} {j : Nat} {g : ObjX} (hg : sx.gts[j]? = some g) :
+    (toScene sx).gts[j]? = some (toObj g) := by
+  simp [toScene, hg]
+
+/-- C01 for every kind/family/uuid combination with geometry: outside FP validation every estimate is in
+exactly one result. -/
+theorem x_results_est_perm {uf : Bool} {c : Cfg} {sx : SceneX} {rs : List Res} (hgeo : hasGeometry sx)
+    (h : getObjectResultsX uf c sx = .ok rs) (hfp : c.fpValidation = false) :
+    (rs.map (·.1)).Perm (List.range sx.ests.length) := by
+  rw [withGeometry_eq_geometric uf c sx hgeo] at h
+  simpa [toScene_ests_length] using results_est_perm h hfp
+
+/-- … each ground truth is used at most once … -/
+theorem x_results_gt_nodup {uf : Bool} {c : Cfg} {sx : SceneX} {rs : List Res} (hgeo : hasGeometry sx)
+    (h : getObjectResultsX uf c sx = .ok rs) : (usedGts rs).Nodup := by
+  rw [withGeometry_eq_geometric uf c sx hgeo] at h
+  exact (results_gt_nodup h).1
+
+/-- … a pair respects the maximum matchable radius configured for the ground truth's label … -/
+theorem x_pair_within_radius {uf : Bool} {c : Cfg} {sx : SceneX} {rs : List Res} (hgeo : hasGeometry sx)
+    (h : getObjectResultsX uf c sx = .ok rs) {i j : Nat} (hp : (i, some j) ∈ rs) {g : ObjX}
+    (hg : sx.gts[j]? = some g) {r : Rat}
+    (hr : labelThreshold c.targets c.thresholds g.label = .ok (some r)) :
+    better c.mode.maximize (sx.val i j) r = true := by
+  rw [withGeometry_eq_geometric uf c sx hgeo] at h
+  exact pair_within_radius (sc := toScene sx) h hp (toScene_gts_get hg) hr
+
+/-- … and in FP validation every result has a ground truth. -/
+theorem x_fpval_all_paired {uf : Bool} {c : Cfg} {sx : SceneX} {rs : List Res} (hgeo : hasGeometry sx)
+    (h : getObjectResultsX uf c sx = .ok rs) (hfp : c.fpValidation = true) :
+    ∀ r ∈ rs, r.2.isSome = true := by
+  rw [withGeometry_eq_geometric uf c sx hgeo] at h
+  exact fpval_all_paired h hfp
+
+/-! Satisfiable and non-trivial: two detected traffic lights with ROIs and uuids, one annotated one whose
+uuid and label equal those of the FAR estimate; radius 50 px. With ROIs the near estimate is paired and
+the far one kept unpaired; the same objects without ROIs are paired by label/uuid (C11's matchers). -/
+
+def exTlCfg : Cfg :=
+  { policy := .default, mode := .centerDistance, targets := some ["traffic_light"],
+    thresholds := some [50], fpValidation := false }
+
+def exTl (roiNone : Bool) : SceneX :=
+  { is2d := true,
+    ests := [⟨"traffic_light", true, "cam_traffic_light_near", some "b", roiNone⟩,
+             ⟨"traffic_light", true, "cam_traffic_light_near", some "a", roiNone⟩],
+    gts := [⟨"traffic_light", true, "cam_traffic_light_near", some "a", roiNone⟩],
+    val := fun i _ => if i == 0 then 500 else 2 }
+
+example : hasGeometry (exTl false) := Or.inr ⟨by decide, by decide⟩
+example : getObjectResultsX false exTlCfg (exTl false) = .ok [(1, some 0), (0, none)] := by decide +kernel
+example : getObjectResultsX true exTlCfg (exTl false) = .ok [(1, some 0), (0, none)] := by decide +kernel
+example : getObjectResultsX false exTlCfg (exTl true) = .ok [(0, some 0)] := by decide +kernel
+example : getObjectResultsX true exTlCfg (exTl true) = .ok [(1, some 0)] := by decide +kernel
+
+end dispatch
 
 end PEval.C01
